@@ -955,6 +955,50 @@ def quiet_call(f, timeout=60):
     return C.call_impl(g, timeout=timeout)
 
 
+COST_SKIPPED = []      # cases not handed to Coq because their predicted model-evaluation cost is over budget (counted in the evidence; the random stream is not affected)
+
+
+COND_SKIPPED = []      # complete HALS runs not judged because a component collapsed to rounding level (counted as ill-conditioned)
+
+
+def collapsed_component(factors, what):
+    """a returned factor column that is non-zero but at rounding level (max |entry| < 1e-9 x the largest entry of the decomposition): the HALS row update tests `if UtU[k, k]`
+    (skip the row when the Gram diagonal is exactly zero), a decision that binary floating point (2e-16 left over by a cancellation) and exact arithmetic (exactly 0) take
+    differently; everything after it differs by O(1).  Such a run is ill-conditioned for the toleranced comparison: counted, not judged."""
+    fs = [np.asarray(f, float) for f in factors]
+    scale = max([float(np.abs(f).max()) for f in fs if f.size] + [1e-300])
+    for f in fs:
+        if f.ndim == 2:
+            cm = np.abs(f).max(axis=0)
+            if ((cm > 0) & (cm < 1e-9 * scale)).any():
+                COND_SKIPPED.append(what)
+                return True
+    return False
+
+
+class _SweepCounter:
+    """counts the inner hals_nnls sweeps of one decomposition call (harness-level interposition on the decomposition modules, /repo untouched): the cost of the
+    model evaluation is proportional to it (every sweep is replayed at the fixed-point carrier, twice)"""
+    def __enter__(self):
+        from tensorly.decomposition import _nn_cp, _tucker
+        self.mods, self.n = [(_nn_cp, _nn_cp.hals_nnls), (_tucker, _tucker.hals_nnls)], 0
+        def make(orig):
+            def wrapped(*a, **k):
+                if k.get("callback") is None:
+                    def cb(V, e):
+                        self.n += 1
+                    k = dict(k, callback=cb)
+                return orig(*a, **k)
+            return wrapped
+        for m_, orig in self.mods:
+            m_.hals_nnls = make(orig)
+        return self
+
+    def __exit__(self, *exc):
+        for m_, orig in self.mods:
+            m_.hals_nnls = orig
+
+
 def corr_mu_cp(rng, tier):
     """complete runs of non_negative_parafac from a user initialisation, tol=0 (exactly n sweeps)"""
     from tensorly.decomposition import non_negative_parafac
@@ -985,6 +1029,9 @@ def corr_mu_cp(rng, tier):
         u = rng.random()
         fixed = None if u < 0.35 else [] if u < 0.6 else [rng.randrange(order)] if u < 0.9 else sorted({rng.randrange(order), order - 1})
         n = rng.choice([0, 1, 1, 2] if (order == 2 and (rank == 1 or (not nm and tier != "quick"))) else [0, 1, 1])    # exact rationals grow fast with the depth
+        if tier == "quick" and nm and order == 3 and n >= 1:      # 107-bit square roots through an order-3 sweep: ~7 CPU s in exact rationals (thorough only)
+            COST_SKIPPED.append("non_negative_parafac order 3 normalised")
+            continue
         st, r = quiet_call(lambda: non_negative_parafac(X.copy(), rank, n_iter_max=n, init=(w.copy(), [f.copy() for f in Fs]), tol=0,
                                                         normalize_factors=nm, fixed_modes=None if fixed is None else list(fixed)))
         if st == "reject":
@@ -1206,6 +1253,7 @@ def corr_tucker_full(rng, tier):
     out, skipped = [], 0
     eps = 10e-12
     nrun = 10 if tier == "quick" else 16
+    heavy_tk = 0
     for k in range(nrun):
         order = rng.choice([2, 2, 2, 3])
         shape = tuple(rng.randint(2, 3) for _ in range(order)) if order == 2 else (2, 2, 2)
@@ -1219,6 +1267,11 @@ def corr_tucker_full(rng, tier):
         core = dy_mat(rng, 1, int(np.prod(ranks)), 0.25, 2, zero_prob=0.1).reshape(ranks)
         nm = rng.random() < 0.4 and order == 2
         n = rng.choice([0, 1, 1, 1, 2]) if (order == 2 and not nm and int(np.prod(ranks)) <= (1 if tier == "quick" else 2)) else rng.choice([0, 1, 1])
+        if order == 3 and int(np.prod(ranks)) > 2 and n >= 1:      # two rank-2 modes of an order-3 core: up to 60 CPU s in exact rationals (thorough: two such runs)
+            heavy_tk += 1
+            if tier == "quick" or heavy_tk > 2:
+                COST_SKIPPED.append("non_negative_tucker order 3 with two rank-2 modes")
+                continue
         run = lambda cap: C.call_impl(lambda: non_negative_tucker(X.copy(), list(ranks), n_iter_max=cap, init=(core.copy(), [f.copy() for f in Fs]),
                                                                   tol=0, normalize_factors=nm), timeout=60)
         ok, c0, f0, res = True, core, Fs, None
@@ -1297,7 +1350,7 @@ def corr_hals_cp(rng, tier):
         if st == "reject":
             IMPL_REJECTS.append({"corr": "non_negative_parafac_hals", "raised": r, "tensor": X, "weights": w, "factors": Fs, "normalize": nm, "fixed": fixed_raw,
                                  "nn_modes": nn, "sparsity": sps, "n": n})
-        if st != "ok" or not finite_all(r[0], *r[1]):
+        if st != "ok" or not finite_all(r[0], *r[1]) or collapsed_component(r[1], "non_negative_parafac_hals"):
             continue
         nn_lit = "NNAll" if nn == "all" else f"(NNList {C.nat_list(nn)})"
         op = (f"(OHalsCpE {C.qtensor(shape, [float(x) for x in X.reshape(-1)])} {qvec_lit(w)} {qmats_lit(Fs)} {optfixed_lit(fixed_raw)} {nn_lit} "
@@ -1342,7 +1395,7 @@ def corr_tucker_hals(rng, tier):
         if st == "reject":
             IMPL_REJECTS.append({"corr": "non_negative_tucker_hals (fista)", "raised": r, "tensor": X, "core": core, "factors": Fs, "normalize": nm, "fixed": fixed_raw,
                                  "sparsity": sps, "core_sparsity": csp, "n": n})
-        if st != "ok" or not finite_all(r[0], *r[1]):
+        if st != "ok" or not finite_all(r[0], *r[1]) or collapsed_component(r[1], "non_negative_tucker_hals (fista)"):
             continue
         lr = 1.0
         if n == 1:
@@ -1439,7 +1492,7 @@ def corr_tucker_aset(rng, tier):
         st, r = C.call_impl(lambda: non_negative_tucker_hals(X.copy(), list(ranks), n_iter_max=n, init=(core.copy(), [f.copy() for f in Fs]), tol=0,
                                                              normalize_factors=nm, fixed_modes=list(fixed), algorithm="active_set",
                                                              sparsity_coefficients=None if sps is None else list(sps)), timeout=120)
-        if st != "ok" or not finite_all(r[0], *r[1]):
+        if st != "ok" or not finite_all(r[0], *r[1]) or collapsed_component(r[1], "non_negative_tucker_hals (active_set)"):
             continue
         kr = np.ones((1, 1))
         for f in r[1]:
@@ -1602,6 +1655,8 @@ EXTRA_CORR = []
 def run_correspondence(chk, rng):
     del IMPL_REJECTS[:]
     del OWN_LS_MISMATCH[:]
+    del COST_SKIPPED[:]
+    del COND_SKIPPED[:]
     groups = []
     groups += corr_mu_cp(rng, chk.tier)
     groups += corr_hals(rng, chk.tier)
@@ -1663,10 +1718,12 @@ def run_correspondence(chk, rng):
             _sh.rmtree(os.path.dirname(b2[0]["shard"]), ignore_errors=True)
         broken = [] if over_budget <= 3 else b2
     chk.cov["skipped_model_evaluation_over_budget"] = over_budget
+    chk.cov["not_emitted_predicted_cost_over_quick_budget"] = list(COST_SKIPPED)
     skipped = sorted(i // 2 for i in failing if i % 2 == 1)
     bad = sorted(i // 2 for i in failing if i % 2 == 0)
     chk.cov["traces_validated_against_impl"] = n_eval - len(skipped)
-    chk.cov["skipped_ill_conditioned"] = len(skipped) + skipped_py
+    chk.cov["skipped_ill_conditioned"] = len(skipped) + skipped_py + len(COND_SKIPPED)
+    chk.cov["skipped_collapsed_component"] = list(COND_SKIPPED)
     for b in broken:
         chk.broken.append({"what": "correspondence corr:C10 shard not evaluated", "detail": b})
     chk.cov["implementation_raised_on_valid_raw_option_calls"] = len(IMPL_REJECTS)
@@ -1833,7 +1890,7 @@ def corr_parafac2_iter(rng, tier):
         nip = rng.choice([1, 2])
         st, r = C.call_impl(lambda: parafac2([s_.copy() for s_ in slices], R, n_iter_max=1, init=(w.copy(), [f.copy() for f in Fs], [p.copy() for p in projs]),
                                              nn_modes="all", linesearch=False, normalize_factors=nm, n_iter_parafac=nip, tol=1e-8), timeout=120)
-        if st != "ok" or not finite_all(r[0], *r[1]):
+        if st != "ok" or not finite_all(r[0], *r[1]) or collapsed_component(r[1], "parafac2 outer iteration"):
             continue
         w1, f1 = (w, Fs)
         if nm:
@@ -2009,11 +2066,15 @@ def corr_parafac2_run(rng, tier):
             return r_
         P2._project_tensor_slices, P2._BroThesisLineSearch.line_step = rec_proj, rec_step
         try:
-            st, r = quiet_call(lambda: parafac2([s_.copy() for s_ in slices], R, n_iter_max=n, init=(w.copy(), [f.copy() for f in Fs], [p.copy() for p in projs]),
-                                                nn_modes="all", linesearch=ls, normalize_factors=nm, n_iter_parafac=nip, tol=0), timeout=120)
+            with _SweepCounter() as sweeps:
+                st, r = quiet_call(lambda: parafac2([s_.copy() for s_ in slices], R, n_iter_max=n, init=(w.copy(), [f.copy() for f in Fs], [p.copy() for p in projs]),
+                                                    nn_modes="all", linesearch=ls, normalize_factors=nm, n_iter_parafac=nip, tol=0), timeout=120)
         finally:
             P2._project_tensor_slices, P2._BroThesisLineSearch.line_step = orig_proj, orig_step
-        if st != "ok" or not finite_all(r[0], *r[1]) or len(Ts) != n:
+        if st != "ok" or not finite_all(r[0], *r[1]) or len(Ts) != n or collapsed_component(r[1], "parafac2 complete run"):
+            continue
+        if sweeps.n > (450 if tier == "quick" else 1500):      # an inner HALS call that does not stop after its second sweep runs 100: ~0.05 CPU s per replayed sweep
+            COST_SKIPPED.append(f"parafac2 complete run with {sweeps.n} inner sweeps")
             continue
         lines = [steps[i][0] if i in steps else None for i in range(n)]
         accepts = [bool(steps[i][1]) if i in steps else False for i in range(n)]
@@ -2143,14 +2204,18 @@ def corr_parafac2_run_g(rng, tier):
             return r_
         P2._project_tensor_slices, P2._BroThesisLineSearch.line_step = rec_proj, rec_step
         try:
-            st, r = quiet_call(lambda: parafac2([s_.copy() for s_ in slices], R, n_iter_max=n, init=(w.copy(), [f.copy() for f in Fs], [p.copy() for p in projs]),
-                                                nn_modes=list(nn), linesearch=ls, normalize_factors=nm, n_iter_parafac=1, tol=0), timeout=120)
+            with _SweepCounter() as sweeps:
+                st, r = quiet_call(lambda: parafac2([s_.copy() for s_ in slices], R, n_iter_max=n, init=(w.copy(), [f.copy() for f in Fs], [p.copy() for p in projs]),
+                                                    nn_modes=list(nn), linesearch=ls, normalize_factors=nm, n_iter_parafac=1, tol=0), timeout=120)
         finally:
             P2._project_tensor_slices, P2._BroThesisLineSearch.line_step = orig_proj, orig_step
+        if sweeps.n > (450 if tier == "quick" else 1500):
+            COST_SKIPPED.append(f"parafac2 complete run (partial nn_modes) with {sweeps.n} inner sweeps")
+            continue
         # the line search parafac2 builds itself (linesearch=True) must clip on every declared mode: read off the object it actually used
         if kind == "own" and st == "ok" and seen_nn and not all(set(nn) <= set(mode_list(x_)) for x_ in seen_nn):
             OWN_LS_MISMATCH.append({"corr": "parafac2 own line search", "nn_modes": nn, "line_search_nn_modes": repr(seen_nn[0]), "slices": slices, "n": n})
-        if st != "ok" or not finite_all(r[0], *r[1]) or len(Ts) != n:
+        if st != "ok" or not finite_all(r[0], *r[1]) or len(Ts) != n or collapsed_component(r[1], "parafac2 complete run (partial nn_modes)"):
             continue
         # the undeclared modes are least-squares solves: keep the well-conditioned runs (the Gram matrices of the returned factors; rank 1: a positive number)
         grams = [np.asarray(f).T @ np.asarray(f) for f in r[1]]
@@ -2256,7 +2321,7 @@ def corr_hals_cp_undeclared(rng, tier):
         st, r = quiet_call(lambda: non_negative_parafac_hals(X.copy(), rank, n_iter_max=n, init=(w.copy(), [f.copy() for f in Fs]), tol=0, normalize_factors=nm,
                                                              fixed_modes=None if fixed_raw is None else list(fixed_raw), nn_modes=nn,
                                                              sparsity_coefficients=None if sps is None else list(sps)), timeout=120)
-        if st != "ok" or not finite_all(r[0], *r[1]):
+        if st != "ok" or not finite_all(r[0], *r[1]) or collapsed_component(r[1], "non_negative_parafac_hals (undeclared modes)"):
             continue
         def hadamard_ok(fs):
             for m in range(order):
